@@ -119,6 +119,22 @@ func detScripts(tier string) []string {
 		sb.WriteString("return [fb(2), fc(), fd(v1, w2)];")
 		out = append(out, sb.String())
 	}
+	// several functions each holding many expressions the optimizer rewrites (constant arithmetic, decided conditions):
+	// whatever the optimizer does to one function may not depend on the order in which it visits the others
+	for _, n := range []int{15, 120, 300} {
+		var sb strings.Builder
+		call := ""
+		for f := 0; f < 6; f++ {
+			fmt.Fprintf(&sb, "function g%d(x) { ", f)
+			for i := 0; i < n; i++ {
+				fmt.Fprintf(&sb, "x = x + %d * %d; if ( %d == %d ) { x = x - 1; } ", i%7+1, f+2, i%3, f%3)
+			}
+			sb.WriteString("return x; } ")
+			call += fmt.Sprintf("g%d(1), ", f)
+		}
+		fmt.Fprintf(&sb, "y = 2 * 3 + 4; return [%s y];", call)
+		out = append(out, sb.String())
+	}
 	out = append(out,
 		`h = {"b": 1, "a": 2, "c": {"y": 1, "x": 2}}; r = ""; foreach k, v in h { r = r + k; } return [r, keys(h), string(h)];`,
 		`function f() { return {1: "i", "1": "s", 1.0: "f"}; } a = f(); b = f(); return [string(a) == string(b), keys(a), keys(b)];`,
@@ -237,7 +253,7 @@ func historyIndependence(c *Check) {
 }
 
 func checkC19(c *Check) {
-	c.rule = "MC_Det: hash literals of 2-5 keys drawn from a pool of 8 keys in which printed forms coincide (1 / 1.0 / \"1\", 1.5 / \"1.5\") incl. repeated keys, observed through string(), keys(), len, foreach over keys and values (twice), index by four keys; nested hashes inside hashes and arrays; plus programs with 20-300 constants and four functions, repeated keys, sort ties; each script is prepared in both modes and run three times on one evaluator, prepared again on the same evaluator, dumped; where EFSemantics defines the outcome it is prescribed, everywhere the whole observation (compiled program bytes and constants, results, host calls, Dump output) must be identical across 6 preparations in the parent process and across 4 (thorough: 12) separate worker processes (each with its own map-iteration seed); 22 scripts failing with errors that mention containers: the error text is part of the observation; a used evaluator against a fresh one on a map changed in place, a record overwritten behind one pointer, and 600 fresh objects with collections in between (addresses handed out again): same inputs, same result; distinct = distinct script"
+	c.rule = "MC_Det: hash literals of 2-5 keys drawn from a pool of 8 keys in which printed forms coincide (1 / 1.0 / \"1\", 1.5 / \"1.5\") incl. repeated keys, observed through string(), keys(), len, foreach over keys and values (twice), index by four keys; nested hashes inside hashes and arrays; plus programs with 20-300 constants and four functions, programs of six functions each holding 15-300 foldable expressions and decided conditions (what the optimizer does to one function may not depend on the order it visits them in), repeated keys, sort ties; each script is prepared in both modes and run three times on one evaluator, prepared again on the same evaluator, dumped; where EFSemantics defines the outcome it is prescribed, everywhere the whole observation (compiled program bytes and constants, results, host calls, Dump output) must be identical across 6 preparations in the parent process and across 4 (thorough: 12) separate worker processes (each with its own map-iteration seed); 22 scripts failing with errors that mention containers: the error text is part of the observation; a used evaluator against a fresh one on a map changed in place, a record overwritten behind one pointer, and 600 fresh objects with collections in between (addresses handed out again): same inputs, same result; distinct = distinct script"
 	c.assumptions = []string{"now()/time()/getenv() are not used", "order among hash keys with equal printed form is unspecified but must be fixed"}
 	var mu sync.Mutex
 	seen := map[string]bool{}
